@@ -525,7 +525,22 @@ def rand_grid_value(rng, t):
                        rng.randrange(max(int(info.min), -50), min(int(info.max), 50) + 1)])
 
 
-def rand_scaled_data(rng, dim=None, n=None, k=None):
+PATTERNS = ["all different", "all equal", "two equal"]
+
+
+def pattern_values(rng, pool, k, pat):
+    """k per-element values (scales or offsets) of a multi-element dimension: pairwise different, one common value, or
+    (3 elements) two elements sharing a value and one apart, at any position"""
+    if pat == "all equal" or k == 1:
+        return [rng.choice(pool)] * k
+    vals = rng.sample(pool, k)
+    if pat == "two equal" and k == 3:
+        i, j = rng.sample(range(3), 2)
+        vals[j] = vals[i]
+    return vals
+
+
+def rand_scaled_data(rng, dim=None, n=None, k=None, spat=None, opat=None, t=None, grid=None):
     n = rng.choice([0, 1, 2, 3, 7, 12]) if n is None else n
     fmt = rng.choice([0, 1, 3, 6, 7])
     data = {"kind": "scaled", "format": fmt,
@@ -535,11 +550,21 @@ def rand_scaled_data(rng, dim=None, n=None, k=None):
     dim = dim or rng.choice(["x", "y", "z", "e", "e", "e", "e"])
     if dim == "e":
         k = k or rng.choice([1, 2, 3, 3])
-        t = rng.choice(GRID_TYPES)
-        scs = rng.sample(SCALES, k)                           # DIFFERENT scales per element
-        ofs = [rng.choice(OFFSETS) for _ in range(k)]
+        t = t or rng.choice(GRID_TYPES)
+        grid = grid or rng.choice(["any", "any", "near"])
+        spat = spat or rng.choice(PATTERNS)
+        opat = opat or rng.choice(PATTERNS)
+        scs = pattern_values(rng, SCALES, k, spat)
+        ofs = pattern_values(rng, OFFSETS, k, opat)
+        if grid == "near":
+            # stored integers of the same small range in every element: which element holds the extreme VALUE is decided by
+            # the scales and offsets, which element holds the extreme stored integer is not
+            lo, hi = (0, 100) if t.startswith("u") else (-100, 100)
+            g = [[rng.randrange(lo, hi + 1) for _ in range(k)] for _ in range(n)]
+        else:
+            g = [[rand_grid_value(rng, t) for _ in range(k)] for _ in range(n)]
         data["extra"] = {"name": "edim", "type": (str(k) if k > 1 else "") + t, "scales": [fhex(s) for s in scs],
-                         "offsets": [fhex(o) for o in ofs], "grid": [[rand_grid_value(rng, t) for _ in range(k)] for _ in range(n)], "k": k}
+                         "offsets": [fhex(o) for o in ofs], "grid": g, "k": k, "scale_pattern": spat, "offset_pattern": opat}
         data["dim"] = "edim"
     else:
         data["dim"] = dim
@@ -710,6 +735,64 @@ def sweep_scaled(sw, count):
                      ("sci2", it, str(ix), str(follow)), quiet_viewraises=True)
 
 
+RED_NOARG = ["max()", "min()", "np.max", "np.min", "np.maximum.reduce", "np.ptp"]
+RED_ARG = ["max(0)", "min(0)", "max(1)", "min(-1)", "max(keepdims)", "min(keepdims)", "max(initial)", "min(initial)", "max(initial f)",
+           "min(initial f)", "max(None)", "max(axis kw)", "min(out)", "np.max0", "np.min0", "np.max1", "np.min-1", "np.max_keepdims",
+           "np.max_out_tuple", "np.sum", "np.mean", "np.sum0", "np.mean-1"]
+
+
+def multi_selections(rng, n, k):
+    """selections of a (n, k) view that keep several points and / or several elements: the result is again a view, of the
+    same elements (rows selected) or of a subset / permutation of the elements (columns selected: its own scales and offsets)"""
+    full = ["slice", None, None, None]
+    mask = [rng.random() < 0.6 for _ in range(n)]
+    if n and not any(mask):
+        mask[rng.randrange(n)] = True
+    cols = rng.sample(range(k), rng.choice([q for q in (1, 2, 3) if q <= k]))
+    out = [(["mask", mask], "mask"), (["slice", rng.choice([None, 0, 1]), rng.choice([None, -1, n]), rng.choice([None, 2, -1])], "slice"),
+           (["list", [rng.randrange(-n, n) for _ in range(rng.choice([1, 2, 4]))] if n else []], "index list"),
+           (["tuple", [["mask", mask], ["ellipsis"]]], "(mask, ..)"),
+           (["tuple", [full, ["list", cols]]], "(slice, list)"),
+           (["tuple", [full, ["slice", rng.choice([None, 0, 1]), rng.choice([None, k, -1]), rng.choice([None, -1])]]], "(slice, slice)"),
+           (["tuple", [["mask", mask], ["list", cols[:1] * sum(mask)]]], "(mask, list)"),
+           (["tuple", [["ellipsis"], ["int", rng.randrange(k)]]], "(.., int)"),
+           (["tuple", [["list", [rng.randrange(n) for _ in range(2)] if n else []], ["slice", None, None, None]]], "(list, slice)")]
+    ix, cls = rand_index_2d(rng, n, k)
+    return out + [(ix, cls)]
+
+
+def sweep_scaled_multi(sw):
+    """2- and 3-element scaled dimensions, scales {all different, all equal, two equal} x offsets {idem} x grid types:
+    reductions without and with arguments, on the view and on selections of it"""
+    ctx = sw.ctx
+    rng = ctx.rng
+    it = 0
+    for k in (2, 3):
+        for spat in PATTERNS:
+            for opat in PATTERNS:
+                if k == 2 and "two equal" in (spat, opat):
+                    continue        # the same as all different
+                types = GRID_TYPES if ctx.thorough() else rng.sample(GRID_TYPES, 4)
+                for t in types:
+                    for grid in ("near", "any"):
+                        it += 1
+                        data = rand_scaled_data(rng, dim="e", n=rng.choice([1, 2, 3, 6, 12]), k=k, spat=spat, opat=opat, t=t, grid=grid)
+                        env = build(data)
+                        n = env["get"]().shape[0]
+                        ctx.count(f"scaled multi: scales {spat} / offsets {opat}")
+                        tag = f"scaled {k}-element"
+                        why = f" (scales {spat}, offsets {opat})"
+                        for fn in RED_NOARG + RED_ARG:
+                            sw.check(f"{tag} {fn}{why}", data, ["fn", fn], env, ("scm", it, fn))
+                        m = ["arr", "bool", [n, 1], [rng.random() < 0.5 for _ in range(n)]]
+                        for fn in ("max(where)", "min(where)"):
+                            sw.check(f"{tag} {fn}{why}", data, ["fn", fn, m], env, ("scm", it, fn))
+                        for ix, cls in multi_selections(rng, n, k):
+                            for fn in RED_NOARG[:4] + rng.sample(RED_ARG, 4):
+                                sw.check(f"{tag} index {cls} then {fn}{why}", data, ["seq", ["idx", ix], ["fn", fn]], env,
+                                         ("scm2", it, str(ix), fn), quiet_viewraises=True)
+
+
 # --------------------------------------------------------------------------------------------
 # stale views: keep a view, modify the record through another handle, evaluate again
 # --------------------------------------------------------------------------------------------
@@ -836,6 +919,7 @@ def run_sweep(ctx):
         sweep_subfield_operators(sw, sfs)
         sweep_subfield_functions(sw, sfs)
         sweep_scaled(sw, ctx.n(60, 600))
+        sweep_scaled_multi(sw)
         sweep_stale(sw, sfs, ctx.n(300, 3000))
     return sw
 
@@ -973,10 +1057,13 @@ def correspond(ctx):
         "on the left; ~100 numpy functions and view methods (min max sum mean unique isin concatenate where + axis/keepdims "
         "variants) and index expressions (int, numpy int, slice, mask, list, index array), alone and followed by a comparison / "
         "arithmetic / reduction / second index, on random columns of 0..64 points; random scaled x/y/z and scaled extra "
-        "dimensions of 1-3 elements of 10 grid types with DIFFERENT scales per element: 5 arithmetic operators x operands, "
+        "dimensions of 1-3 elements of 10 grid types, per-element scales {all different, all equal, two equal} x per-element offsets "
+        "{idem}, stored integers over the type's range or of one small range in every element: 5 arithmetic operators x operands, "
         "functions, the index forms of the property ((.., j), (i, ..), (i, j), (rows, cols) with ints, slices, lists, masks, "
         "negative indices, steps, empty selections), each followed by arithmetic, a numpy function, the result's own max()/min() "
-        "(also with initial=/where=) or a second index; views kept while the record is modified through another handle. "
+        "(also with initial=/where=) or a second index; for every (2|3 elements, scale pattern, offset pattern, grid type): max/min/"
+        "np.max/np.min/ptp without arguments and with axis=/keepdims=/initial=/where=/out=, sum, mean, on the view and on 10 "
+        "selections of it (mask, slice, list, (mask, ..), (slice, column list/slice) = a view of a subset of the elements, ...); views kept while the record is modified through another handle. "
         "E(view) is compared with E(np.array(view)): kind of values, shape up to length-1 axes, values (binary64 bit patterns). "
         "non-trivial = both sides return a result; distinct by (mask or dataset, expression). Expressions raising on both sides, "
         "raising on the view only, or whose result cannot be materialised are counted as 'no result'. "
